@@ -1171,7 +1171,8 @@ def _shard_locate(shard, ctx):
     for cfg in ("vmdk-same-dir", "vmdk-relative", "vmdk-backslash-abs", "vmdk-sibling-dir", "vmdk-missing",
                 "vmdk-embedded-missing", "vmdk-embedded-found", "vmdk-embedded-nameless-handle", "vmdk-embedded-nameless-list",
                 "vmdk-text-descriptor-nameless-handle", "vmdk-embedded-stale-hint", "vmdk-embedded-missing-no-extent-lines",
-                "qcow2-none-given", "qcow2-optout", "qcow2-given", "hdd-missing-image", "hdd-moved-absolute"):
+                "qcow2-none-given", "qcow2-optout", "qcow2-given", "hdd-missing-image", "hdd-moved-absolute",
+                "hdd-missing-image-element", "hdd-missing-image-element-second-storage"):
         run_case({"kind": "locate", "cfg": cfg}, ctx)
 
 
@@ -1188,6 +1189,7 @@ def _case_locate(case, ctx, d):
     alone = GuestDisk(3 * unit, unit, top_states, 2)
     reqs = [(0, 3 * unit), (0, 512), (unit - 1, 2), (2 * unit, 100)]
     expect_fail = cfg in ("vmdk-missing", "vmdk-embedded-missing", "qcow2-none-given", "hdd-missing-image",
+                          "hdd-missing-image-element", "hdd-missing-image-element-second-storage",
                           "vmdk-embedded-nameless-handle", "vmdk-embedded-nameless-list", "vmdk-text-descriptor-nameless-handle",
                           "vmdk-embedded-missing-no-extent-lines")
     optout = cfg in ("qcow2-optout", "vmdk-embedded-stale-hint")
@@ -1329,9 +1331,18 @@ def _open_locate(cfg, d, grain, base_states, top_states):
             BH.build_hds(base_states, slots0, spc, 2, W * spc, layer=1).write_to(os.path.join(hd, files[g0]))
         BH.build_hds(top_states, slots1, spc, 2, W * spc, layer=2).write_to(os.path.join(hd, files[BH.DEFAULT_TOP]))
         prefix = "/Users/someone/Parallels/old.pvm/disk.hdd/" if cfg == "hdd-moved-absolute" else ""
-        xml = BH.descriptor_xml(W * spc, [(0, W * spc, [(g0, "Compressed", prefix + files[g0]),
-                                                        (BH.DEFAULT_TOP, "Compressed", prefix + files[BH.DEFAULT_TOP])])],
-                                [(g0, BH.NULL_GUID), (BH.DEFAULT_TOP, g0)])
+        images = [(g0, "Compressed", prefix + files[g0]), (BH.DEFAULT_TOP, "Compressed", prefix + files[BH.DEFAULT_TOP])]
+        storages = [(0, W * spc, images)]
+        if cfg == "hdd-missing-image-element":
+            # the snapshot chain names the base, the storage lists no image for it (the file itself lies in the bundle)
+            storages = [(0, W * spc, images[1:])]
+        elif cfg == "hdd-missing-image-element-second-storage":
+            # two storages; the second one lists only the top snapshot's image
+            for k_, g_ in enumerate((g0, BH.DEFAULT_TOP)):
+                BH.build_hds([HOLE, DATA][k_:k_ + 1] or [HOLE], [None, 1][k_:k_ + 1], spc, 2, spc, layer=k_ + 1).write_to(
+                    os.path.join(hd, "disk.hdd.1." + g_ + ".hds"))
+            storages = [(0, W * spc, images), (W * spc, (W + 1) * spc, [(BH.DEFAULT_TOP, "Compressed", "disk.hdd.1." + BH.DEFAULT_TOP + ".hds")])]
+        xml = BH.descriptor_xml(storages[-1][1], storages, [(g0, BH.NULL_GUID), (BH.DEFAULT_TOP, g0)])
         with open(os.path.join(hd, "DiskDescriptor.xml"), "w") as f:
             f.write(xml)
         return HDD(Path(hd)).open()
